@@ -909,6 +909,11 @@ def check(ctx):
     check_wrappers(ctx)
     check_dtype_gate(ctx)
     rep.floor('M1', 'obligations', len(rep.obs), 40)
+    # "the reported distance": the bulk entry points report distances too - every cell they hand back is the kernel value of its
+    # pair, written into the buffer that is returned (C05 clause B1 re-evaluated under this property; the layout clauses stay C05's)
+    from . import c05
+    rep.rule('B1', 'C05-B1 re-evaluated: every cell of a bulk result is a kernel value / copy / zero, stored in the returned buffer itself')
+    c05.check_stores(ctx)
 
 
 from ..variants import V  # noqa: E402
